@@ -75,11 +75,26 @@ def get_key(kind: str, m: int):
         return slice(None, None, 2)
     if kind == "ix":
         return np.array([m - 1, 0, 0])
+    if kind == "ineg":
+        return -1
+    if kind == "sln":
+        return slice(-2, None)
+    if kind == "ixn":  # integer ndarray with a negative entry (no -1)
+        return np.array([-2, 0]) if m >= 2 else np.array([0])
+    if kind == "ixm":  # mixed signs, unsorted, repeated, including -1 and -m
+        return np.array([-1, 1 % m, -1, 0, -m])
+    if kind == "ixb":  # boolean ndarray
+        return np.array([i % 2 == 0 for i in range(m)])
+    if kind == "lsn":  # Python list with a negative entry
+        return [-1, 0]
     raise KeyError(kind)
 
 
+GET_KINDS = ("i", "sl", "st", "ix", "ineg", "sln", "ixn", "ixm", "ixb", "lsn")
+
+
 def get_size(kind: str, m: int) -> int:
-    return {"i": 1, "sl": max(1, m - 1), "st": (m + 1) // 2, "ix": 3}[kind]
+    return {"i": 1, "sl": max(1, m - 1), "st": (m + 1) // 2, "ix": 3, "ineg": 1, "sln": min(2, m), "ixn": 2 if m >= 2 else 1, "ixm": 5, "ixb": (m + 1) // 2, "lsn": 2}[kind]
 
 
 # function table: name -> (library function name, leading args, keyword args)
@@ -439,7 +454,7 @@ class Oracle:
             z = self.ev(e[2])
             k = get_key(e[1], z.shape[0])
             if isinstance(k, (int, np.integer)):
-                return z[k : k + 1]
+                return z[[k]]
             return z[k]
         if t == "fn":
             return self._note(self._fn(e[1], self.ev(e[2])))
@@ -525,12 +540,8 @@ def sympy_reference(e, x, y):
             return [sum(sp.Float(float(D[i, j])) * z[j] for j in range(len(z)) if D[i, j] != 0) + sp.Integer(0) for i in range(D.shape[0])]
         if t == "get":
             z = ev(e[2])
-            k = get_key(e[1], len(z))
-            if isinstance(k, (int, np.integer)):
-                return [z[int(k)]]
-            if isinstance(k, slice):
-                return z[k]
-            return [z[int(i)] for i in k]
+            idx = np.arange(len(z))[get_key(e[1], len(z))]
+            return [z[int(i)] for i in np.atleast_1d(idx)]
         if t == "fn":
             z = ev(e[2])
             name = e[1]
@@ -570,6 +581,41 @@ def sympy_reference(e, x, y):
 
 
 # ----------------------------------------------------------------------------- implementation
+
+
+class MalformedJacobian(Exception):
+    """An operation returned an AdArray whose Jacobian is not a valid sparse matrix."""
+
+
+def validate_sparse(M, nrows=None):
+    """Structural validity of a scipy sparse matrix, checked on the raw arrays (densifying
+    or multiplying a csr with non-monotone indptr can crash the interpreter)."""
+    fmt = getattr(M, "format", None)
+    if len(M.shape) != 2:
+        return f"Jacobian is not 2-d: shape {M.shape}"
+    if nrows is not None and M.shape[0] != nrows:
+        return f"Jacobian has {M.shape[0]} rows for {nrows} values"
+    if fmt in ("csr", "csc", "bsr"):
+        major = M.shape[0] if fmt in ("csr", "bsr") else M.shape[1]
+        minor = M.shape[1] if fmt in ("csr", "bsr") else M.shape[0]
+        ip, ind = np.asarray(M.indptr), np.asarray(M.indices)
+        if fmt == "bsr":
+            R, C = M.blocksize
+            major, minor = major // R, minor // C
+        if ip.size != major + 1:
+            return f"indptr has size {ip.size}, expected {major + 1}"
+        if ip[0] != 0 or np.any(np.diff(ip) < 0):
+            return f"indptr is not monotone from 0: {ip.tolist()[:12]}"
+        if ip[-1] != ind.size or (fmt != "bsr" and M.data.size != ind.size) or (fmt == "bsr" and M.data.shape[0] != ind.size):
+            return f"indptr[-1]={int(ip[-1])} inconsistent with {ind.size} indices / {M.data.shape} data"
+        if ind.size and (ind.min() < 0 or ind.max() >= minor):
+            return "column/row index out of range"
+    elif fmt == "coo":
+        if M.row.size != M.data.size or M.col.size != M.data.size:
+            return "coo arrays of different length"
+        if M.data.size and (M.row.min() < 0 or M.row.max() >= M.shape[0] or M.col.min() < 0 or M.col.max() >= M.shape[1]):
+            return "coo index out of range"
+    return None
 
 
 class OperandMutated(Exception):
@@ -629,6 +675,10 @@ def impl_eval(e, X, Y, mutations=None):
     def apply(what, f, *operands):
         before = [snapshot(o) for o in operands]
         res = f(*operands)
+        if hasattr(res, "jac") and hasattr(res.jac, "shape") and hasattr(res, "val"):
+            msg = validate_sparse(res.jac, np.asarray(res.val).size)
+            if msg:
+                raise MalformedJacobian(f"{what}: {msg}")
         for i, (o, b) in enumerate(zip(operands, before)):
             if snapshot(o) != b:
                 note(f"{what}: operand {i} ({type(o).__name__}) was modified in place")
@@ -698,7 +748,7 @@ def letters():
         for shape in ("sq", "rect"):
             for flav in ("m", "a"):
                 L.append(["mm", fmt, shape, flav])
-    for kind in ("i", "sl", "st", "ix"):
+    for kind in GET_KINDS:
         L.append(["get", kind])
     for name in FUNCS:
         L.append(["fn", name])
